@@ -92,12 +92,16 @@ func VerifC20_FactoryIdentity() {
 		verifrt.Assume(len(h) == 64)
 		return h
 	})
-	verifrt.Override("(*github.com/gr33nbl00d/caddy-revocation-validator/crl/crlloader.URLLoader).normalizeUrl", func(l *URLLoader) (string, error) { return l.UrlString, nil })
+	// the real normalizeUrl / net/url.Parse run here (concrete locations)
 	pairs := [][2]string{
 		{"http://pki.example.com/crl/RootCA.crl", "http://pki.example.com/crl/rootca.crl"},
 		{"HTTP://PKI.example.com/CRL", "http://pki.example.com/crl"},
 		{"https://pki.example.com/a%2Fb.crl", "https://pki.example.com/a/b.crl"},
 		{"http://pki.example.com/Issuing-CA.crl", "http://pki.example.com/issuing-ca.crl"},
+		{"http://pki.example.com/certdist?cmd=crl&issuer=CN%3DA", "http://pki.example.com/certdist?cmd=crl&issuer=CN%3DB"},
+		{"http://pki.example.com/crl?ca=1", "http://pki.example.com/crl?ca=2"},
+		{"http://pki.example.com:8080/crl", "http://pki.example.com:8081/crl"},
+		{"http://a.example.com/crl#x", "http://b.example.com/crl#x"},
 	}
 	p := pairs[verifrt.Choose(len(pairs))]
 	f := DefaultCRLLoaderFactory{}
